@@ -1,8 +1,8 @@
 // multiexpdriver.go: the driver `MultiExp` of bandersnatch/multiexp.go.
-//   * the body of its splitting loop `for nbChunks < config.NbTasks { … }` is translated statement by
+//   - the body of its splitting loop `for nbChunks < config.NbTasks { … }` is translated statement by
 //     statement (loops.go, bucket-method mode) into `chooseStep`, with the float cost model
 //     `bestC` as a parameter; the loop header and the initial values are emitted as facts;
-//   * every other statement of the function (length check, default task count, the call of
+//   - every other statement of the function (length check, default task count, the call of
 //     partitionScalars, the first-chunk-split decision, the goroutine fan-out over the splits, the
 //     last split on the caller's goroutine, the fan-in that adds the partial results in arrival
 //     order) is emitted as a normalised statement list, compared with the expected list by a tie
